@@ -23,7 +23,9 @@ PROP = dict(
          "replayed from the same/another peer, forged: unsigned, garbage, other key, signed over other origin/id/timestamp; timestamps at now, "
          "+-3 s, +-window, +-(window-3), +-(window+3), +-2*window, 0, 2^62, 2^64-1, year 2603), virtual clock advances, cache cleanups (TTL expiry, "
          "forced and non-forced size eviction), key listings, peer connections (pending-wake forwarding). Real Ed25519. Non-trivial = delivery "
-         "accepted, or a cleanup/keys/peer observation",
+         "accepted, or a cleanup/keys/peer observation. Ages are arbitrary whole seconds (only window-1 and -(window+1), whose verdict depends on the "
+         "sub-second phase of the real clock, are left out); the timestamp-window edge is probed from both sides within 1 ns / 2 ms (`edge`, "
+         "window set relative to the measured age), the cache-expiry edge exactly at SeenAt+TTL-1ns / +0 / +1ns (`cleanupat`); stress rounds",
     nontrivial=lambda op, out: ("acc=1" in out) or op.startswith(("cleanup", "keys", "peer")),
     trusted_base=[
         "deliveries and cleanups are atomic steps of the history model: tied by lock-shape facts (tools/lockshape.go -> MM/Gen/LockC29.lean: "
